@@ -11,9 +11,17 @@ Vocabulary (Model/C12.lean, specification section; Lemmas/C12.lean):
                          (nothing missing, nothing extra, nothing twice), for ALL x, y, p;
 * `StrictlyIncreasing out` - strictly increasing as `(region, core mask)` tuples;
 * `holds d t x y p` - the (chip, core) set a tree node stands for; `Inv d t` the tree invariant;
-* `InRange c`       - 0 <= x, y < 256 and 0 <= p < 18.
+* `InRange c`       - 0 <= x, y < 256 and 0 <= p < 18;
+* `exactB`, `nodupB`, `strictB` - the executable oracle the driver runs on the implementation's
+                      output (enumeration through `chipsOf`/`coresOf`/`expand`, sorted keys);
+* `wantsD tg x y p` - core `p` of chip `(x, y)` is requested by the dictionary `tg` as C09 carries it
+                      (the expression of C09's `wants`/`wantsT`/`regionsOK`);
+* `Rig.C09.selects`, `selectsCore`, `strictlyIncreasing`, `regionsOK` - C09's own reading of the
+                      region word and its contract for `compress_flood_fill_regions`.
 -/
 import RigModel.Lemmas.C12
+import RigModel.Lemmas.C12Oracle
+import RigModel.Model.C09
 set_option linter.unusedSimpArgs false
 set_option linter.unusedVariables false
 
@@ -206,5 +214,180 @@ theorem chipsOf_spec (r x y : Nat) : (x, y) ∈ chipsOf r ↔ selects r x y = tr
     refine ⟨x % (4 * wSide r), Nat.mod_lt _ hpos, y % (4 * wSide r), Nat.mod_lt _ hpos, ?_, ?_⟩
     · rw [← h1]; exact Nat.div_add_mod' x (4 * wSide r)
     · rw [← h2]; exact Nat.div_add_mod' y (4 * wSide r)
+
+/-! ## the executable oracle decides the specification
+
+The driver's op `oracle` returns `exactB targets out`, `strictB out` and `nodupB targets` on the
+implementation's own output; these are the proved predicates, for ALL target lists and ALL
+outputs (any words, any masks - no bounds). -/
+
+/-- **Oracle = specification (exactness).** For targets listed without repetition the enumerating
+oracle returns `true` iff the pairs select every target exactly once and nothing else. -/
+theorem exactB_iff (targets : List (Nat × Nat × Nat)) (out : List (Nat × Nat)) (hnd : targets.Nodup) :
+    exactB targets out = true ↔ Exact targets out :=
+  exactB_iff' targets out hnd
+
+/-- the hypothesis of `exactB_iff` is itself decided by the driver -/
+theorem nodupB_iff (targets : List (Nat × Nat × Nat)) : nodupB targets = true ↔ targets.Nodup :=
+  nodupB_iff' targets
+
+/-- **Oracle = specification (order).** -/
+theorem strictB_iff (out : List (Nat × Nat)) : strictB out = true ↔ StrictlyIncreasing out :=
+  strictB_iff' out
+
+/-- the three booleans of the driver's reply together -/
+theorem oracle_decides (targets : List (Nat × Nat × Nat)) (out : List (Nat × Nat)) :
+    (nodupB targets && exactB targets out && strictB out) = true ↔
+      (targets.Nodup ∧ Exact targets out ∧ StrictlyIncreasing out) := by
+  simp only [Bool.and_eq_true, nodupB_iff, strictB_iff]
+  constructor
+  · rintro ⟨⟨h1, h2⟩, h3⟩; exact ⟨h1, (exactB_iff _ _ h1).1 h2, h3⟩
+  · rintro ⟨h1, h2, h3⟩; exact ⟨⟨h1, (exactB_iff _ _ h1).2 h2⟩, h3⟩
+
+/-- non-vacuity of the hypothesis (and the driver decides it: `nodupB_iff`).  The hypothesis cannot
+be dropped: `Exact` reads the targets as a set, the oracle compares multisets, so for a target
+listed twice `exactB` is false on a correct output. -/
+example : [((3 : Nat), (4 : Nat), (5 : Nat)), (3, 4, 6), (4, 3, 5)].Nodup := by decide
+example : nodupB [(3, 4, 5), (3, 4, 6), (4, 3, 5)] = true := (nodupB_iff _).2 (by decide)
+
+/-! ## C09's reading of the region word is this one
+
+`Model/C09.lean` has its own `selects` (written by another hand from the same documentation) and
+states the contract of `compress_flood_fill_regions` that its fill theorems assume (`CompressOK`,
+checked at run time by `regionsOK`).  The two readings agree on every word and every chip, and
+`compress` meets that contract. -/
+
+/-- **Cross-model.** C09's and C12's reading of a region word agree on ALL words and chips. -/
+theorem c09_selects_agree (r x y : Nat) : Rig.C09.selects r x y = selects r x y := by
+  have hl : r / 65536 % 4 < 4 := Nat.mod_lt _ (by decide)
+  have hbit : ∀ i, i < 16 → (r % 65536).testBit i = r.testBit i := by
+    intro i hi
+    have : (65536 : Nat) = 2 ^ 16 := by decide
+    rw [this, Nat.testBit_mod_two_pow]; simp [hi]
+  have hy : r / 65536 % 256 / 4 * 4 = r / 2 ^ 18 % 64 * 4 := by omega
+  have hx : r / 16777216 % 256 = r / 2 ^ 24 % 256 := by omega
+  unfold Rig.C09.selects selects wSide wBaseX wBaseY wLevel
+  simp only [hy, hx]
+  have e16 : (2 : Nat) ^ 16 = 65536 := by decide
+  rw [e16]
+  generalize r / 65536 % 4 = lv at hl
+  have : lv = 0 ∨ lv = 1 ∨ lv = 2 ∨ lv = 3 := by omega
+  rcases this with h | h | h | h <;> subst h <;>
+    simp only [Nat.reducePow, Nat.reduceSub, Nat.reduceMul, Nat.reduceDiv, Nat.div_one] <;>
+    rw [hbit _ (by omega)]
+
+/-- ... hence on all pairs and cores: C09's `selectsCore` says "some pair of the list selects" -/
+theorem c09_selectsCore_agree (out : List (Nat × Nat)) (x y p : Nat) :
+    Rig.C09.selectsCore out x y p = decide (0 < countSel out x y p) := by
+  unfold Rig.C09.selectsCore countSel
+  rw [Bool.eq_iff_iff]
+  simp only [List.any_eq_true, decide_eq_true_eq, List.countP_pos_iff, sel, c09_selects_agree]
+
+/-- C09's order check is `strictB`, i.e. `StrictlyIncreasing` -/
+theorem c09_strictlyIncreasing_agree (out : List (Nat × Nat)) :
+    Rig.C09.strictlyIncreasing out = true ↔ StrictlyIncreasing out := by
+  have h : ∀ out : List (Nat × Nat), Rig.C09.strictlyIncreasing out = strictB out := by
+    intro out
+    induction out with
+    | nil => rfl
+    | cons a rest ih =>
+      cases rest with
+      | nil => rfl
+      | cons b rest => rw [Rig.C09.strictlyIncreasing, strictB, ih]; rfl
+  rw [h, strictB_iff]
+
+/-- the set a `{(x, y): cores}` dictionary, as C09 carries it, requests (the expression used by
+C09's `wants`, `wantsT` and `regionsOK`) -/
+def wantsD (tg : List (Nat × Nat × List Nat)) (x y p : Nat) : Bool :=
+  tg.any fun t => t.1 == x && t.2.1 == y && t.2.2.contains p
+
+/-- the dictionary flattened in iteration order: the insertion sequence of
+`compress_flood_fill_regions` -/
+def flatTargets (tg : List (Nat × Nat × List Nat)) : List (Int × Int × Int) :=
+  tg.flatMap fun e => e.2.2.map fun (p : Nat) => ((e.1 : Int), (e.2.1 : Int), (p : Int))
+
+theorem flatTargets_mem (tg : List (Nat × Nat × List Nat)) (x y p : Nat) :
+    (x, y, p) ∈ (flatTargets tg).map toNat3 ↔ wantsD tg x y p = true := by
+  simp only [flatTargets, wantsD, toNat3, List.mem_map, List.mem_flatMap, List.any_eq_true,
+    Bool.and_eq_true, beq_iff_eq, List.contains_iff_mem]
+  constructor
+  · rintro ⟨c, ⟨e, he, q, hq, rfl⟩, h⟩
+    simp only [Int.toNat_natCast, Prod.mk.injEq] at h
+    obtain ⟨rfl, rfl, rfl⟩ := h
+    exact ⟨e, he, ⟨rfl, rfl⟩, hq⟩
+  · rintro ⟨e, he, ⟨rfl, rfl⟩, hq⟩
+    exact ⟨_, ⟨e, he, p, hq, rfl⟩, by simp⟩
+
+theorem flatTargets_inRange (tg : List (Nat × Nat × List Nat))
+    (h : ∀ x y p, wantsD tg x y p = true → x < 256 ∧ y < 256 ∧ p < 18) :
+    ∀ c, c ∈ flatTargets tg → InRange c := by
+  intro c hc
+  have hm : (c.1.toNat, c.2.1.toNat, c.2.2.toNat) ∈ (flatTargets tg).map toNat3 :=
+    List.mem_map.2 ⟨c, hc, rfl⟩
+  have := h _ _ _ ((flatTargets_mem tg _ _ _).1 hm)
+  simp only [flatTargets, List.mem_flatMap, List.mem_map] at hc
+  obtain ⟨e, he, p, hp, rfl⟩ := hc
+  simp only [Int.toNat_natCast] at this
+  simp only [InRange]
+  omega
+
+/-- **C12 discharges C09's contract.** For every dictionary `tg` of in-range targets and every
+insertion sequence `ts` that lists exactly the requested cores (any order, repetitions allowed),
+`compress` succeeds and its output meets, under C09's OWN reading of the region word, everything
+C09 assumes of `compress_flood_fill_regions`: 18-bit masks, `selectsCore` = requested for ALL
+chips and cores (C09's `CompressOK` asks this only on the machine's chips and cores < 18),
+strictly increasing, and the run-time check `regionsOK` is true for every chip list. -/
+theorem c09_regions_contract (tg : List (Nat × Nat × List Nat)) (ts : List (Int × Int × Int))
+    (hr : ∀ c, c ∈ ts → InRange c)
+    (hrep : ∀ x y p, (x, y, p) ∈ ts.map toNat3 ↔ wantsD tg x y p = true) :
+    ∃ out, compress ts = .ok out ∧
+      (∀ rm, rm ∈ out → rm.2 < 262144) ∧
+      (∀ x y p, Rig.C09.selectsCore out x y p = wantsD tg x y p) ∧
+      Rig.C09.strictlyIncreasing out = true ∧
+      ∀ chips, Rig.C09.regionsOK chips tg out = true := by
+  obtain ⟨out, e, hex⟩ := compress_exact ts hr
+  obtain ⟨out2, e2, hm, _, _⟩ := compress_keys ts hr
+  obtain ⟨out3, e3, hs⟩ := compress_sorted ts hr
+  rw [e] at e2 e3; cases e2; cases e3
+  have hsel : ∀ x y p, Rig.C09.selectsCore out x y p = wantsD tg x y p := by
+    intro x y p
+    rw [c09_selectsCore_agree, hex x y p, Bool.eq_iff_iff, decide_eq_true_eq, ← hrep]
+    split <;> simp_all
+  have hst : Rig.C09.strictlyIncreasing out = true := (c09_strictlyIncreasing_agree out).2 hs
+  refine ⟨out, e, hm, hsel, hst, ?_⟩
+  intro chips
+  unfold Rig.C09.regionsOK
+  simp only [Bool.and_eq_true, List.all_eq_true, decide_eq_true_eq, beq_iff_eq]
+  exact ⟨⟨hst, fun rm h => hm rm h⟩, fun c _ => hsel c.1 c.2.1 c.2.2⟩
+
+/-- `compress_flood_fill_regions` as the function C09's controller model takes (`Ctl.compress`):
+the dictionary is inserted in iteration order -/
+def compressD (tg : List (Nat × Nat × List Nat)) : List (Nat × Nat) :=
+  match compress (flatTargets tg) with
+  | .ok out => out
+  | .error _ => []
+
+/-- **The body of C09's `CompressOK` holds for the C12 model** (`c.compress := compressD`), with
+the domain stated on the requested set only: all requested chips in the 256 x 256 space, cores < 18
+(what C09's `Valid.hin` gives on a machine whose chip coordinates are below 256). -/
+theorem c09_compressOK (tg : List (Nat × Nat × List Nat))
+    (h : ∀ x y p, wantsD tg x y p = true → x < 256 ∧ y < 256 ∧ p < 18) :
+    (∀ rm, rm ∈ compressD tg → rm.2 < 262144) ∧
+    (∀ x y p, Rig.C09.selectsCore (compressD tg) x y p = wantsD tg x y p) ∧
+    ∀ chips, Rig.C09.regionsOK chips tg (compressD tg) = true := by
+  obtain ⟨out, e, h1, h2, _, h4⟩ :=
+    c09_regions_contract tg (flatTargets tg) (flatTargets_inRange tg h) (flatTargets_mem tg)
+  have : compressD tg = out := by simp only [compressD, e]
+  rw [this]
+  exact ⟨h1, h2, h4⟩
+
+/-- non-vacuity: a dictionary with two chips, one of them with an empty core set -/
+example : ∀ x y p, wantsD [(255, 3, [0, 17]), (7, 7, [])] x y p = true → x < 256 ∧ y < 256 ∧ p < 18 := by
+  intro x y p h
+  simp only [wantsD, List.any_cons, List.any_nil, Bool.or_false, Bool.or_eq_true, Bool.and_eq_true,
+    beq_iff_eq, List.contains_iff_mem, List.mem_cons, List.not_mem_nil, or_false] at h
+  simp only [and_false, or_false] at h
+  omega
+example : compressD [(255, 3, [0, 17]), (7, 7, [])] = [(0xfc038000, 0x20001)] := by decide +kernel
 
 end Rig.C12
